@@ -25,8 +25,11 @@ LEVEL_NOTE = ("os.path and open() are CPython/OS (no symlinks); the Python impor
 TECHNIQUE = "Lean 4 theorems on the include-stack model + differential correspondence on real files + textual-inlining oracle"
 RULE = ("all directed include graphs over 3 files with <= 2 includes each (chains, diamonds, self-loops, longer cycles, cycles not "
         "through the root) and random graphs over 4 files, includes at top level or inside scopes, files in different "
-        "directories, relative names with '..', current directory different from every file's directory; non-trivial = at "
-        "least one include; distinct = distinct graph+placement")
+        "directories, relative names with '..', current directory different from every file's directory; directory "
+        "arrangements over 2-4 files in which named files are absent next to their includer and the name as written exists "
+        "with other content under the current directory / the root file's directory / the includer's includer's directory "
+        "(expected: inlined parse, cycle chain, or failure to open); non-trivial = at least one include; distinct = distinct "
+        "graph+placement / distinct file table")
 ASSUMPTIONS = ["no symbolic links in the scratch tree"]
 DIRS = ["", "sub", "sub/deep", "other"]
 
@@ -34,6 +37,12 @@ DIRS = ["", "sub", "sub/deep", "other"]
 class Cycle(Exception):
     def __init__(self, chain):
         self.chain = chain
+
+
+class Missing(Exception):
+    """the named file does not exist at the place textual inlining looks for it (next to the including file)"""
+    def __init__(self, path, by):
+        self.path, self.by = path, by
 
 
 def file_path(base, i):
@@ -181,6 +190,11 @@ def run(ctx):
             impls.append(ia)
             if len(ctx.samples) < 3 and any(graph):
                 ctx.sample({"graph": case["graph"], "root_text": texts[0], "cycle": want_cycle is not None})
+        # directory arrangements: absent targets, same relative name present under other anchor directories
+        for _ in range(ctx.scale(500, 8000, 2000)):
+            if ctx.time_left() < 22:
+                break
+            arrangement_round(rng, ctx, base, cases, reqs, impls)
         # include scope: the named Python-level scope (optionally one sub-path) is spliced the same way
         f = include_scope_oracle()
         ctx.case("include_scope")
@@ -196,6 +210,142 @@ def run(ctx):
         shutil.rmtree(base, ignore_errors=True)
     if reqs and ctx.mode != "impl-only":
         ctx.corr("expand", cases, reqs, impls)
+
+
+def inline_fs(fs, path, stack, by=None):
+    """textual inlining over an explicit file table {absolute normalised path: text}: every `include file NAME` line
+    is replaced by the expansion of join(directory of the including file, NAME); a name with no file THERE is Missing -
+    whatever exists under that name relative to any other directory"""
+    if path not in fs:
+        raise Missing(path, by)
+    if path in stack:
+        raise Cycle(stack + [path])
+    stack = stack + [path]
+    out = []
+    for line in fs[path].split("\n"):
+        s = line.strip()
+        if s.startswith("include file "):
+            name = s[len("include file "):]
+            out.append(inline_fs(fs, os.path.normpath(os.path.join(os.path.dirname(path), name)), stack, path))
+        else:
+            out.append(line + "\n")
+    return "".join(out)
+
+
+def arrangement_round(rng, ctx, base, cases, reqs, impls):
+    """'relative names are resolved against the directory of the including file - not the current directory', over
+    directory ARRANGEMENTS rather than graphs: some of the named files do not exist where inlining looks for them, and
+    the relative name as written may exist (with other content) under the other directories a resolver could wrongly
+    anchor it at - the current directory, the directory of the root file, the directory of the file that included the
+    includer.  The library must give the parse of the inlined text, the cycle error, or - when inlining is impossible
+    because a name has no file next to its includer - fail to open that file; it must never pick up a look-alike."""
+    n = rng.choice([2, 3, 3, 4])
+    cwdir = os.getcwd()
+    paths = [file_path(base, i) for i in range(n)]
+    graph = []
+    for i in range(n):
+        k = rng.choice([1, 1, 2]) if i == 0 else rng.choice([0, 1, 1, 2]) if i + 1 < n else rng.choice([0, 0, 0, 1])
+        # mostly forward edges: most arrangements are acyclic, so that absent files and look-alikes are reached
+        graph.append(tuple(rng.randrange(i + 1, n) if i + 1 < n and rng.random() < 0.8 else rng.randrange(n)
+                           for _ in range(k)))
+    p_absent = rng.choice([0.0, 0.2, 0.4])
+    absent = [i > 0 and rng.random() < p_absent for i in range(n)]
+    if rng.random() < 0.02:
+        absent[0] = True
+    placement = [[rng.random() < 0.4 for _ in t] for t in graph]
+    texts = contents(base, graph, placement, rng)
+    fs = {paths[i]: texts[i] for i in range(n) if not absent[i]}
+    # look-alikes: NAME as written in file i, anchored at a directory other than dirname(file i)
+    includers = {j: [i for i in range(n) if j in graph[i]] for j in range(n)}
+    p_decoy = rng.choice([0.0, 0.5, 0.9])
+    nd = 0
+    alike = set()
+    for i in range(n):
+        for line in texts[i].split("\n"):
+            s = line.strip()
+            if not s.startswith("include file "):
+                continue
+            name = s[len("include file "):]
+            if os.path.isabs(name):
+                continue
+            anchors = [("cwd", cwdir), ("rootdir", os.path.dirname(paths[0]))]
+            anchors += [("grandparent", os.path.dirname(paths[h])) for h in includers[i]]
+            for label, a in anchors:
+                d = os.path.normpath(os.path.join(a, name))
+                if a == os.path.dirname(paths[i]) or d in paths or d in fs or not d.startswith(base + os.sep):
+                    continue
+                if rng.random() < p_decoy:
+                    nd += 1
+                    fs[d] = "lookalike_%d = %d\n" % (nd, i)
+                    alike.add((paths[i], os.path.normpath(os.path.join(os.path.dirname(paths[i]), name)), label))
+    written = []
+    try:
+        for pth in [file_path(base, i) for i in range(8)]:
+            if os.path.exists(pth):
+                os.remove(pth)          # files of earlier rounds: an absent file must be absent
+        for pth, t in fs.items():
+            os.makedirs(os.path.dirname(pth), exist_ok=True)
+            with open(pth, "w") as f:
+                f.write(t)
+            written.append(pth)
+        root = paths[0]
+        case = {"arrangement": True, "cwd": os.path.relpath(cwdir, base), "root": os.path.relpath(root, base),
+                "files": {os.path.relpath(p, base): t for p, t in sorted(fs.items())},
+                "absent": [os.path.relpath(paths[i], base) for i in range(n) if absent[i]]}
+        ctx.case(("arrangement", tuple(sorted(fs.items()))))
+        want_text = want_cycle = want_missing = None
+        try:
+            want_text = inline_fs(fs, root, [])
+        except Cycle as c:
+            want_cycle = c.chain
+        except Missing as m:
+            want_missing = m
+        ctx.count("arr_" + ("cycle" if want_cycle else "missing" if want_missing else "acyclic"))
+        ctx.count("arr_lookalikes", nd)
+        if want_missing is not None:
+            for label in ("cwd", "rootdir", "grandparent"):
+                if (want_missing.by, want_missing.path, label) in alike:
+                    ctx.count("arr_missing_with_lookalike_in_" + label)
+        err = got = None
+        try:
+            got = freephil.parse(file_name=root, process_includes=True)
+        except BaseException as e:
+            err = e
+        f = None
+        if want_cycle:
+            if err is None:
+                f = "include cycle %r not detected" % ([os.path.relpath(p, base) for p in want_cycle],)
+            elif type(err) is not RuntimeError or not str(err).startswith("Include dependency cycle: "):
+                f = "cycle raised %s: %s" % (type(err).__name__, str(err)[:100])
+            elif str(err)[len("Include dependency cycle: "):].split(", ") != want_cycle:
+                f = "reported chain %r, expected %r" % (str(err)[len("Include dependency cycle: "):].split(", "), want_cycle)
+        elif want_missing is not None:
+            where = "%s (named in %s)" % (os.path.relpath(want_missing.path, base),
+                                          os.path.relpath(want_missing.by, base) if want_missing.by else "the call")
+            if err is None:
+                f = ("no file %s, so the include cannot be inlined, but the parse succeeded with %r (current directory %s)"
+                     % (where, got.as_str()[:120], os.path.relpath(cwdir, base)))
+            elif not isinstance(err, OSError):
+                f = "no file %s: raised %s: %s instead of failing to open it" % (where, type(err).__name__, str(err)[:100])
+        elif err is not None:
+            f = "acyclic includes raised %s: %s" % (type(err).__name__, str(err)[:100])
+        else:
+            d = _lay.first_diff(_lay.sig(freephil.parse(input_string=want_text)), _lay.sig(got))
+            if d:
+                f = "tree differs from the parse of the inlined text at %s (look-alike files under other directories)" % d
+        if f:
+            ctx.fail(case, f)
+        ia = call_j(lambda: freephil.parse(file_name=root, process_includes=True),
+                    lambda r: [obj_j(o, with_ids=True, with_lines=True) for o in r.objects])
+        cases.append(case)
+        reqs.append(["expand", [[enc(p), enc(t)] for p, t in sorted(fs.items())], enc(root)])
+        impls.append(ia)
+    finally:
+        for pth in written:
+            try:
+                os.remove(pth)
+            except OSError:
+                pass
 
 
 INC_MOD = "verif_inc_scopes"
